@@ -30,8 +30,8 @@ contract("codemodder.codemods.libcst_transformer.LibcstTransformerPipeline.apply
          params={"self": "BaseTransformerPipeline", "context": "CodemodExecutionContext", "file_context": "FileContext",
                  "results": "list[Result] | None"}, returns="ChangeSet | None",
          modifies=_FC_MOD,
-         exsures=[("OSError", None, "may", ["fs == store(old(fs), file_context.file_path, fs[file_context.file_path])"]),
-                  ("ValueError", None, "may", ["fs == old(fs)"])],
+         exsures=[("OSError", None, "may", ["fs == store(old(fs), file_context.file_path, fs[file_context.file_path])", "not context.dry_run"]),
+                  ("ValueError", None, "may", ["fs == old(fs)", "decodable(old(fs)[" + _P + "])"])],
          ensures=DYN_APPLY_ENSURES + [
              ("a file that cannot be read, decoded or parsed is left untouched, listed failed, all its findings unfixed",
               "implies(raised_by('OSError', file_context.file_path.read_bytes()) or not decodable(old(fs)[" + _P + "])"
@@ -117,7 +117,8 @@ _ORIG = "decode_utf8(old(fs)[" + _P + "]).splitlines(keepends=True)"
 contract("codemodder.codemods.regex_transformer.RegexTransformerPipeline.apply", props=["C03", "C04", "C10", "C15", "C19"],
          params={"self": _RP, "context": "CodemodExecutionContext", "file_context": "FileContext", "results": "list[Result] | None"},
          returns="ChangeSet | None", modifies=_FC_MOD,
-         exsures=[("OSError", None, "may", ["fs == old(fs)"]), ("ValueError", None, "may", ["True"])],
+         exsures=[("OSError", None, "may", ["fs == old(fs)", "not context.dry_run"]),
+                  ("ValueError", None, "may", ["decodable(old(fs)[" + _P + "])"])],
          ensures=DYN_APPLY_ENSURES + [
              ("a file that cannot be read or decoded is left untouched, listed failed, all its findings unfixed",
               "implies(raised_by('OSError', file_context.file_path.read_bytes()) or not decodable(old(fs)[" + _P + "]), " + _FAILED + ")"),
@@ -135,7 +136,8 @@ contract("codemodder.codemods.xml_transformer.XMLTransformerPipeline.apply", pro
          params={"self": "XMLTransformerPipeline", "context": "CodemodExecutionContext", "file_context": "FileContext",
                  "results": "list[Result] | None"},
          returns="ChangeSet | None", modifies=_FC_MOD,
-         exsures=[("OSError", None, "may", ["fs == old(fs)"]), ("ValueError", None, "may", ["True"])],
+         exsures=[("OSError", None, "may", ["fs == old(fs)", "not context.dry_run"]),
+                  ("ValueError", None, "may", ["decodable(old(fs)[" + _P + "])"])],
          ensures=DYN_APPLY_ENSURES + [
              ("no changeset => the file is byte-for-byte unchanged", "implies(result is None, fs == old(fs))"),
              ("a file that cannot be read or decoded is left untouched and listed failed",
